@@ -39,7 +39,8 @@ payload_st = st.lists(st.sampled_from(FRAGS), min_size=1, max_size=4).map("".joi
 POSITIONS = ["noname-path", "noname-remote-path", "selector-error", "url-redirect", "filename", "dirname", "html-title", "subject", "abstract-sidecar",
              "linkfile-name", "linkfile-abstract", "linkfile-path", "linkfile-urlpath", "linkfile-host", "map-desc", "map-sel",
              "map-url", "map-host", "wap-text", "search-item-path", "keywords-sidecar",
-             "url-dirname", "url-filename", "linkfile-url-noscheme", "map-url-noscheme", "subject-qenc", "subject-b64"]
+             "url-dirname", "url-filename", "linkfile-url-noscheme", "map-url-noscheme", "subject-qenc", "subject-b64",
+             "map-type", "linkfile-type", "cap-type"]
 HTML_FORMS = ["http", "https", "wap", "waphdr"]
 GP_FORMS = ["gdollar", "gbang"]
 GP_POSITIONS = {"filename", "html-title", "subject", "subject-qenc", "subject-b64", "abstract-sidecar", "linkfile-name", "linkfile-abstract", "map-desc",
@@ -88,6 +89,10 @@ def _fit(pos, p, fam):
         if pos == "linkfile-abstract":
             p = p.rstrip("\\")
         return p or None
+    if pos in ("map-type", "linkfile-type", "cap-type"):
+        # the one-character item type, taken from content
+        c = [ch for ch in p if ch in "\"<>&'`=;"]
+        return c[0] if c else None
     if pos in ("selector-error", "url-redirect"):
         return p.replace("\0", "")
     return p
@@ -164,6 +169,12 @@ def _build(pos, v, n, fill=0):
         spec.append(["d/gophermap", "f", fillmap + "0Entry\t%s\n" % v])
     elif pos == "map-url":
         spec.append(["d/gophermap", "f", fillmap + "hWeb\tURL:http://www.example.org/%s\n" % v])
+    elif pos == "map-type":
+        spec.append(["d/gophermap", "f", fillmap + "%sTyped entry\tzz.txt\n%sRemote typed\t/x\tother.example\t70\n" % (v[0], v[0])])
+    elif pos == "linkfile-type":
+        spec.append(["d/.links", "f", "Name=Typed\nType=%s\nPath=/d/zz.txt\nHost=+\nPort=+\n" % v[0]])
+    elif pos == "cap-type":
+        spec.append(["d/.cap/zz.txt", "f", "Type=%s\nName=Capped\n" % v[0]])
     elif pos == "map-host":
         spec.append(["d/gophermap", "f", fillmap + "1Far\t/x\t%s\t70\n" % v])
     elif pos == "wap-text":
